@@ -43,8 +43,8 @@ def run(ctx):
     ]
     exe, err = vlib.build_harness("ibtp")
     if exe is not None:
-        restart_pairs(ctx, exe, 25 if ctx.quick else 600)
-    return C.run_check(ctx, "C06", gens, 140, 6000, router_n=40 if ctx.quick else 1000)
+        restart_pairs(ctx, exe, 16 if ctx.quick else 600)
+    return C.run_check(ctx, "C06", gens, 100, 6000, router_n=30 if ctx.quick else 1000)
 
 
 def replay(ctx, path):
